@@ -70,10 +70,25 @@ def block_seeded():
     return s
 
 
+def block_status():
+    rows = []
+    for i in range(1, 21):
+        pid = "C%02d" % i
+        try:
+            e = json.load(open(os.path.join(V, "evidence", pid + ".json")))
+        except Exception:
+            continue
+        c = e.get("coverage", {})
+        rows.append("| %s | %s/%s | %s | %s | %s | %s |" % (pid, c.get("discharged"), c.get("obligations"),
+                    c.get("inputs_explored", c.get("evaluations", "")), c.get("model_cases", ""), e.get("tier"), e.get("wall_s")))
+    return ("| property | theorems closed (Print Assumptions: closed under the global context) | harness evaluations | cases evaluated in Coq | tier of the last run | wall s |\n|---|---|---|---|---|---|\n"
+            + "\n".join(rows) + "\n")
+
+
 def main():
     p = os.path.join(V, "DESIGN.md")
     t = open(p).read()
-    for name, fn in (("fixes", block_fixes), ("findings", block_findings), ("seeded", block_seeded)):
+    for name, fn in (("fixes", block_fixes), ("findings", block_findings), ("seeded", block_seeded), ("status", block_status)):
         pat = re.compile(r"(<!-- AUTO:%s -->\n).*?(<!-- /AUTO:%s -->)" % (name, name), re.S)
         if pat.search(t):
             body = fn()
